@@ -21,7 +21,15 @@ import (
 	"github.com/q191201771/naza/pkg/nazabytes"
 )
 
-func ParseSps(payload []byte, ctx *Context) error {
+func ParseSps(payload []byte, ctx *Context) (err error) {
+	// nazabits.BitReader在读到缓冲区末尾时（比如最后一个bit正好是一个值为0的指数哥伦布编码）会数组越界panic，
+	// sps来自对端，不能让一个构造出来的sps把整个进程带走
+	defer func() {
+		if r := recover(); r != nil {
+			Log.Errorf("ParseSps panic. r=%+v, payload=%s", r, hex.Dump(nazabytes.Prefix(payload, 128)))
+			err = nazaerrors.Wrap(base.ErrAvc)
+		}
+	}()
 	// 先去掉emulation_prevention_three_byte(7.4.1)，否则之后的字段都会错位
 	br := nazabits.NewBitReader(nal2rbsp(payload))
 	var sps Sps
